@@ -36,8 +36,9 @@ type node struct {
 	failPoll map[uint64]bool // request ordinals of header-only "latest" calls that fail
 	npoll    uint64
 	srv      *httptest.Server
-	gateCh   chan struct{} // when set: every request but a head poll waits for it
-	gateAt   uint64        // closed when npoll reaches this
+	faults   map[uint64]fault // first block number of a header/block batch -> scripted failure
+	gateCh   chan struct{}    // when set: every request but a head poll waits for it
+	gateAt   uint64           // closed when npoll reaches this
 }
 
 // gate makes the node hold back every request that is not a head poll until
@@ -63,6 +64,44 @@ func (n *node) awaitPolls(k uint64) {
 	case <-ch:
 	case <-time.After(2 * time.Second):
 	}
+}
+
+// fault: the next `left` header/block batches starting at a given block fail:
+// kind 1 HTTP 500, kind 2 an error member in the first item, kind 3 a broken
+// parent link in the second block (validate rejects the segment).
+type fault struct{ kind, left int }
+
+func (n *node) failFetch(start uint64, kind, times int) {
+	n.mu.Lock()
+	if n.faults == nil {
+		n.faults = map[uint64]fault{}
+	}
+	n.faults[start] = fault{kind, times}
+	n.mu.Unlock()
+}
+
+// batchFault (n.mu held): the scripted failure of this request, if it is a
+// batch of eth_getBlockByNumber calls by number.
+func (n *node) batchFault(reqs []rpcReq, batch bool) int {
+	if !batch || len(reqs) == 0 || len(n.faults) == 0 {
+		return 0
+	}
+	for _, q := range reqs {
+		if q.Method != "eth_getBlockByNumber" || len(q.Params) != 2 {
+			return 0
+		}
+	}
+	start, latest := parseNum(reqs[0].Params[0])
+	f, ok := n.faults[start]
+	if latest || !ok || f.left <= 0 {
+		return 0
+	}
+	f.left--
+	n.faults[start] = f
+	if f.kind == 3 && len(reqs) < 2 {
+		return 2
+	}
+	return f.kind
 }
 
 func isPoll(q rpcReq) bool {
@@ -148,11 +187,21 @@ func (n *node) serve(w http.ResponseWriter, r *http.Request) {
 	n.mu.Lock()
 	n.nreq++
 	var out []map[string]any
-	fail := false
-	for _, q := range reqs {
+	fk := n.batchFault(reqs, batch)
+	fail := fk == 1
+	for i, q := range reqs {
 		res, bad := n.answer(q)
 		fail = fail || bad
-		out = append(out, map[string]any{"jsonrpc": "2.0", "id": q.ID, "result": res})
+		item := map[string]any{"jsonrpc": "2.0", "id": q.ID, "result": res}
+		switch {
+		case fk == 2 && i == 0:
+			item = map[string]any{"jsonrpc": "2.0", "id": q.ID, "error": map[string]any{"code": -32000, "message": "scripted failure"}}
+		case fk == 3 && i == 1:
+			if h, ok := res.(map[string]any); ok {
+				h["parentHash"] = hx(make([]byte, 32))
+			}
+		}
+		out = append(out, item)
 	}
 	n.mu.Unlock()
 	if fail {
